@@ -50,6 +50,8 @@ func Value(rt *rapid.T, o Opts) e5.Value {
 		return s.deepChain(rt)
 	case shape < 45 && o.MaxDepth >= 1:
 		return s.wideList(rt)
+	case shape < 49 && o.MaxDepth >= 2:
+		return s.manyEmpty(rt)
 	default:
 		d := 0
 		if o.MaxDepth > 0 {
@@ -150,6 +152,29 @@ func (s *state) wideList(rt *rapid.T) e5.Value {
 	}
 	for i := 0; i < n; i++ {
 		v.List = append(v.List, kinds[i%k])
+	}
+	return v
+}
+
+// manyEmpty is a shallow tree holding many EMPTY lists (and zero-length leaves) side by side and at
+// a few depths: element-free containers are where per-item bookkeeping (depth counters, slab slots,
+// length fields) is most easily skipped or double counted.
+func (s *state) manyEmpty(rt *rapid.T) e5.Value {
+	n := rapid.SampledFrom([]int{3, 62, 63, 64, 65, 66, 70, 128, 300}).Draw(rt, "emptyn")
+	v := e5.Value{FC: e5.List, List: make([]e5.Value, 0, n)}
+	for i := 0; i < n; i++ {
+		switch i % 7 {
+		case 3:
+			v.List = append(v.List, e5.Value{FC: e5.List, List: []e5.Value{{FC: e5.List}, {FC: e5.List}}})
+		case 5:
+			v.List = append(v.List, s.leafOf(rt, rapid.SampledFrom(s.codes()).Draw(rt, "zfc"), 0))
+		default:
+			v.List = append(v.List, e5.Value{FC: e5.List})
+		}
+	}
+	s.budget -= 2 * n
+	if rapid.Bool().Draw(rt, "emptywrap") {
+		return e5.Value{FC: e5.List, List: []e5.Value{v, s.smallLeaf(rt)}}
 	}
 	return v
 }
